@@ -4,6 +4,8 @@ mod c01;
 mod c02;
 mod c04;
 mod c08;
+mod c11;
+mod c12;
 mod core;
 mod lc;
 mod lcgen;
@@ -23,6 +25,8 @@ fn prop_by_id(id: &str) -> Option<Box<dyn Prop>> {
         "C05" => Box::new(lc::LcProp(lc::Which::C05)),
         "C06" => Box::new(lc::LcProp(lc::Which::C06)),
         "C07" => Box::new(lc::LcProp(lc::Which::C07)),
+        "C11" => Box::new(c11::C11),
+        "C12" => Box::new(c12::C12),
         "C15" => Box::new(rem::C15),
         _ => return None,
     })
